@@ -15,7 +15,8 @@ using Scalars =
              std::uint32_t, std::int32_t, std::uint64_t, std::int64_t,
              std::size_t, int, EnumU8, EnumI32, EnumPlain>;
 using Floats = TypeList<float, double, std::tuple<int, std::string, double>,
-                        std::vector<float>, std::array<double, 2>, External>;
+                        std::vector<float>, std::array<double, 2>, External,
+                        std::pair<int, float>, Variant<float, bool, double>, Optional<double>, std::map<int, float>>;
 using Containers = TypeList<
     std::string, std::u16string, std::u32string, std::wstring,
     std::vector<std::uint8_t>, std::vector<std::int32_t>,
@@ -33,6 +34,11 @@ using Containers = TypeList<
     Optional<Optional<int>>, std::vector<Optional<std::string>>, std::map<std::string, Optional<int>>,
     Result<ErrorEnum, Optional<int>>, Variant<Optional<int>, std::vector<std::string>>, std::vector<Variant<int, std::string>>,
     std::array<std::uint16_t, 0>, std::tuple<std::vector<std::uint8_t>, std::array<Inner, 0>>,
+    std::vector<std::vector<std::int32_t>>, std::vector<std::uint16_t>, std::vector<char>, std::vector<EnumU8>,
+    std::array<std::int64_t, 1>, std::array<char, 5>, std::array<EnumI32, 2>, std::map<EnumU8, std::vector<std::string>>,
+    std::pair<std::vector<std::uint8_t>, std::pair<int, std::int16_t>>, std::tuple<bool, char, std::int8_t, std::uint64_t>,
+    Optional<std::vector<std::uint8_t>>, Variant<bool, std::uint64_t, std::array<std::int16_t, 2>>,
+    std::map<int, Variant<int, std::string>>, Result<ErrorEnum, std::vector<Inner>>,
     Variant<int, std::string, std::vector<int>>, Variant<int>,
     Variant<std::string, Inner>, Inner, Outer, Empty,
     Pairish<int, std::string>, LBufC<std::uint8_t, 8, std::uint8_t>,
